@@ -354,5 +354,9 @@ m("C19", "C19-open-default-mode-by-count", "R19-options:ioOpenFile:default-mode-
 m("C14", "C14-gsub-no-match-returns-the-argument", "R14-gsub:strGsub:first-result-is-a-string-built-here", ("stringlib.go", "\t\t// the subject as a string (the argument itself may be a number)\n\t\tL.Push(LString(str))\n", "\t\tL.SetTop(1)\n"))
 m("C15", "C15-log-of-subnormal-unscaled", "R15-mathmap:lnOf:math.Log#", ("mathlib.go", "\tif x > 0 && x < 0x1p-1022 {\n\t\treturn math.Log(x*0x1p+54) - 54*math.Ln2\n\t}\n", ""))
 m("C15", "C15-log10-scaled-wrong-correction", "R15-mathmap:log10Of:math.Log10#1:no-subnormal-argument", ("mathlib.go", "- 54*(math.Ln2/math.Ln10)", "- 54*math.Ln2"))
+for _p in ("C05", "C12"):
+    m(_p, _p + "-error-value-pushed-checked", "R12-grow:raise-sites:Error#1:raised-value-pushed-without-raising", ("state.go", "\t\tif ls.reg.IsFull() {\n\t\t\t// as in raiseError: the value being raised has to fit, whatever the limit says\n\t\t\tls.reg.forceResize(ls.reg.Top() + 1)\n\t\t}\n\t\tls.reg.Push(lv)\n", "\t\tls.Push(lv)\n"))
+m("C17", "C17-for-hidden-variables-in-scope-at-once", "R17-scope:compileNumberForStmt:hidden-variables-in-scope-from-the-loop-entry", ("compile.go", "\tcontext.StartScopeHere()\n\tcode.AddASbx(OP_FORPREP, rindex, 0, sline(stmt))\n", "\tcode.AddASbx(OP_FORPREP, rindex, 0, sline(stmt))\n"))
+m("C17", "C17-generic-for-scope-start-before-the-explist", "R17-scope:compileGenericForStmt:hidden-variables-in-scope-from-the-loop-entry", ("compile.go", "\tcompileRegAssignment(context, hidden, stmt.Exprs, context.RegTop()-3, 3, sline(stmt))\n\n\tcontext.StartScopeHere()\n", "\tcontext.StartScopeHere()\n\tcompileRegAssignment(context, hidden, stmt.Exprs, context.RegTop()-3, 3, sline(stmt))\n\n"))
 if __name__ == "__main__":
     main()
